@@ -15,7 +15,7 @@ COMPONENTS_LL = {
 PROPS_LL = {
     'C08': {
         'engine': 'eqsim_ll',
-        'quick': {'runs': 20000, 'steps': (10, 30), 'deadline_s': 90, 'chunk': 50, 'seed': 8,
+        'quick': {'runs': 14000, 'steps': (10, 30), 'deadline_s': 90, 'chunk': 50, 'seed': 8,
                   'fault_rate': 0.6},
         'thorough': {'runs': 400000, 'steps': (10, 40), 'deadline_s': 900, 'chunk': 200, 'seed': 1008,
                      'fault_rate': 0.6},
@@ -44,7 +44,8 @@ PROPS_LL = {
     },
     'C15': {
         'engine': 'eqsim_ll',
-        'quick': {'runs': 4000, 'steps': (6, 16), 'deadline_s': 90, 'chunk': 10, 'seed': 15, 'fault_rate': 0.4},
+        'quick': {'runs': 3000, 'steps': (6, 16), 'deadline_s': 90, 'chunk': 10, 'seed': 15, 'fault_rate': 0.4,
+                  'min_fraction': 0.05},
         'thorough': {'runs': 60000, 'steps': (6, 20), 'deadline_s': 900, 'chunk': 25, 'seed': 1015,
                      'fault_rate': 0.4},
         'rule': ('one evaluation = one simulated run on 3-5 persistent MultiStreams of one package: decanter runs '
